@@ -33,13 +33,13 @@ CLAIMED.update({
 CLAIMED.update({
  "C17": ("Bounded symbolic model checking of the real tty.VT: one operation (WriteByte of any byte, Write of two bytes, SetCursorPosition with any 32-bit coordinates, SetState) from an arbitrary terminal state satisfying Inv(VT) on every geometry of an enumerated set, compared cell by cell (contents, scrollback, cursor, viewport, data offset) with an independent reference terminal; plus AttachTo from an arbitrary previous attachment as the init lemma. Histories of any length follow by induction on Inv(VT).",
          "Geometries enumerated (width x height x scrollback x tab width, including tab widths >= 128), everything else symbolic; Inv(VT) assumed for the pre-state and re-established by the equality with the reference; attached console is a reference grid console.", "7 C17"),
- "C18": ("Same step lemma as C17 with the sync invariant added: an active terminal's console shows exactly the viewport after every operation, an inactive terminal never touches the console, activation redraws, and attaching establishes the invariant (open known finding KF-C18-1: a terminal activated before it is attached never paints the console) - checked with a reference grid console (arbitrary cell colours) and with the shipped VgaTextConsole (cell word = 0x0700|char).",
-         "Framebuffer (VesaFbConsole) synchronisation is not part of this check: the driver's own painting is covered by C19; geometries enumerated as in C17.", "7 C18"),
+ "C18": ("Same step lemma as C17 with the sync invariant added: an active terminal's console shows exactly the viewport after every operation, an inactive terminal never touches the console, activation redraws, and attaching establishes the invariant (open known finding KF-C18-1: a terminal activated before it is attached never paints the console) - checked with a reference grid console (arbitrary cell colours) with the shipped VgaTextConsole (cell word = 0x0700|char), and with the shipped VesaFbConsole at 8 bpp over a symbolic byte framebuffer (every pixel of every cell = default foreground where the glyph bit of the viewport's character is set, default background elsewhere; logo row and padding bytes never touched).",
+         "Framebuffer synchronisation at 8 bpp only, grid {1,2}x{1,2} cells (thorough {1..3}x{1..3}), synthetic 8x1 font of 256 glyphs (blank space, others pairwise distinct), remainder pixel column unspecified while scrolling; the drivers' painting at the other depths is C19's subject; geometries enumerated as in C17.", "7 C18"),
 })
 
 CLAIMED.update({
  "C05": ("Bounded symbolic model checking of the real setupPDTForKernel at seam level: up to two ELF sections with symbolic address/size/flags and a symbolic kernel offset, 0..2 early reservations, map failure at an arbitrary call - the recorded sequence of (page, frame, flags) map requests equals an independently computed reference (every page of every section in the kernel range, loaded-at frame, W^X flags, never user-accessible, then the early reservations), and the new root is activated last and only on success.",
-         "Seam level: visitElfSectionsFn, mapFn, translateFn, activePDTFn, switchPDTFn and the frame allocator are harness functions (the repository's own test seams); that Map installs a requested translation is C04's subject. Sections of 1 byte..3 pages, <= 2 sections, <= 2 reservations.", "7 C05"),
+         "Seam level: visitElfSectionsFn, mapFn, translateFn, activePDTFn, switchPDTFn and the frame allocator are harness functions (the repository's own test seams); that Map installs a requested translation is C04's subject. Sections of 1 byte..3 pages, <= 2 sections, <= 2 reservations (thorough: 5 pages, 3 sections, 3 reservations).", "7 C05"),
  "C06": ("Bounded symbolic model checking of the real page-fault and general-protection handlers and of the zero-frame guard: every bit of the four page-table entries on the faulting path, the fault offset, the error code, the page contents and allocation / temporary-mapping failures are symbolic; resumed iff present, read-only, copy-on-write and the copy could be made, with exactly the leaf entry rewritten (fresh frame, RW, CoW cleared), the copy equal to the page, the TLB entry flushed and the temp mapping removed; every other fault panics and changes nothing; Map / MapTemporary / PageDirectoryTable.Map / IdentityMapRegion refuse a writable mapping of the zero frame for every frame/flag combination; reserveZeroedFrame zeroes, unmaps and arms the guard or returns the failing step's error.",
          "Seam level (ptePtrFn serves one entry per walk level; mapTemporaryFn, unmapFn, flushTLBEntryFn, readCR2Fn, frame allocator are harness functions); kfmt.Printf/Fprintf stubbed while encoding; the 4096-byte copy is checked at 8 representative offsets; real IDT dispatch (package gate) is outside.", "7 C06"),
 })
@@ -53,9 +53,9 @@ CLAIMED.update({
 
 CLAIMED.update({
  "C11": ("Bounded symbolic model checking of the real AML parser (ParseAML with all its passes) on well-formed programs of fixed shape with symbolic contents: every name segment, integer/string constant, flag byte and PkgLength encoding is decided by the solver; after a successful parse every declared object is located by its stream offset and checked for kind, name, absolute path (enclosing named scopes up to the root), integer/string arguments in order; method invocations before and after the declaration carry exactly the declared arguments.",
-         "Shapes are enumerated (nine templates: ten kinds of named objects at the root and nested in a Device; Scope(\\_SB_) and a dual-name Scope to a Device; forward and backward two-argument method calls; parent-prefix, relative and absolute multi-segment names and Scope targets through two nested Devices; invocations with operator expressions as arguments / as operands; If nested in a While body; 0..7-argument invocation inside a deferred block; a name referring into a Device that is declared later through an absolute path; Scope(\\\\) written as RootChar + NullName), contents symbolic; this is not 'every program of the grammar': multi-table loads, Buffer size expressions, BankField, nesting depth > 3 are outside. Two open known findings (KF-C11-1 parent-prefix names inside a Device, KF-C11-4 If inside While), both encoded in the repository's golden files. kfmt.Fprintf stubbed while encoding.", "7 C11"),
- "C12": ("Bounded symbolic model checking of the real ParseAML on malformed input: every payload of up to 2 (thorough 3) arbitrary bytes behind a valid header, and templates with unconstrained holes (Device with a dual-name path of 8 arbitrary name bytes; Field Connection buffer with arbitrary length prefix; Scope(\\_SB_) with a 1..2-byte arbitrary body; path-declared Name followed by a Scope directive with 8 arbitrary name bytes; nested Buffers with both package-length bytes from a menu of 20 values; a Method whose PkgLength cuts its name short): never panics, call depth stays within a budget proportional to the input (exceeding it = non-termination), every []byte the tree refers to lies inside the table region, the tree stays a tree (parent chains end, child lists consistent in both directions) and can be printed afterwards, whether the table was accepted or rejected (quick tier: in the templates; thorough: everywhere).",
-         "Arbitrary inputs longer than 3 bytes only through the six templates; termination = call-depth 120 / 600 decisions / 20M instructions per path; kfmt.Fprintf stubbed while encoding.", "7 C12"),
+         "Shapes are enumerated (eleven templates: ten kinds of named objects at the root and nested in a Device; Scope(\\_SB_) and a dual-name Scope to a Device; forward and backward two-argument method calls; parent-prefix, relative and absolute multi-segment names and Scope targets through two nested Devices; invocations with operator expressions as arguments / as operands; If nested in a While body; 0..7-argument invocation inside a deferred block; a name referring into a Device that is declared later through an absolute path; Scope(\\\\) written as RootChar + NullName; a chain of 2..7 Devices declared deepest first through absolute multi-segment paths, concrete names; a two-table load whose second table extends a Device of the first with names and Buffers), contents symbolic; this is not 'every program of the grammar': loads of more than two tables, Buffer size expressions, BankField, nesting depth > 3 are outside. Two open known findings (KF-C11-1 parent-prefix names inside a Device, KF-C11-4 If inside While), both encoded in the repository's golden files. kfmt.Fprintf stubbed while encoding.", "7 C11"),
+ "C12": ("Bounded symbolic model checking of the real ParseAML on malformed input: every payload of up to 2 (thorough 3) arbitrary bytes behind a valid header, and templates with unconstrained holes (Device with a dual-name path of 8 arbitrary name bytes; Field Connection buffer with arbitrary length prefix; Scope(\\_SB_) with a 1..2-byte arbitrary body; path-declared Name followed by a Scope directive with 8 arbitrary name bytes; nested Buffers with both package-length bytes from a menu of 20 values; a Method whose PkgLength cuts its name short; a Device declared through a three-segment path, two segments arbitrary, around a nested Device - the path may resolve into the object's own body): never panics, call depth stays within a budget proportional to the input (exceeding it = non-termination), every []byte the tree refers to lies inside the table region, the tree stays a tree (parent chains end, child lists consistent in both directions) and can be printed afterwards, whether the table was accepted or rejected (quick tier: in the templates; thorough: everywhere).",
+         "Arbitrary inputs longer than 3 bytes only through the seven templates; termination = call-depth 120 / 600 decisions / 20M instructions per path; kfmt.Fprintf stubbed while encoding.", "7 C12"),
  "C14": ("Bounded symbolic model checking of the real locateRSDT and acpiDriver.DriverInit over raw firmware regions with symbolic bytes: RSDP found at the first 16-byte slot whose descriptor has the signature and a zero byte sum (20 bytes for revision 0, the 36 bytes of the ACPI 2.0 structure otherwise - stated from the specification, not from the padded Go struct), window unmapped on every path; RSDT/XSDT enumeration registers a listed table iff its bytes sum to zero, reports and skips bad ones, and registers the DSDT a checksum-valid FADT designates (32-bit pointer for revision < 2 roots, else the 64-bit one, 32-bit when that is zero); the DSDT is placed alone in its frame, page-aligned or crossing a page boundary, and the mappings the driver requests must reach what it then reads (open known finding KF-C14-2); at the 4 GiB-aligned address 0x200000000; and a FADT laid out as the ACPI specification packs it, X_DSDT at byte offset 140 (open known finding KF-C14-4: the Go struct reads offset 152).",
          "Table lengths and entry addresses are written (concrete) by the harness; signatures pairwise distinct; quick tier: 1 plain table + FADT + DSDT with FADT body bytes zero, thorough: 3 tables, all bytes symbolic; mapping functions are the repository's test seams; kfmt.Fprintf replaced by a one-byte report.", "7 C14"),
  "C16": ("Bounded symbolic model checking of the real kfmt ring buffer (Write/Read step lemmas over an arbitrary ring state of 2048 arbitrary bytes, checked at an arbitrary position), SetOutputSink hand-over (real io.Copy), PrefixWriter, and of hal.DetectHardware with 3 (4) mock drivers of arbitrary detection order byte, kind and probe/init outcome (real sort.Sort, bytes.Buffer, PrefixWriter): probes in non-decreasing order, failed drivers never active, first console/terminal win, terminal attached before it becomes the log sink, and the exact expected log text arrives on it once and in order.",
